@@ -265,7 +265,24 @@ def streams_phase(ctx, part):
         trace = ctx.path("strace-%d.ndjson" % ci)
         rank = ctx.path("srank-%d.tla" % ci)
         n = 54 if quick else 540
-        ctx.run([part, "streams", cfgp, str(n), str(ctx.seed * 77 + ci), trace, rank], timeout=1500)
+        rc, _, err = ctx.run([part, "streams", cfgp, str(n), str(ctx.seed * 77 + ci), trace, rank], timeout=1500,
+                             ok_codes=tuple(range(-64, 256)), rlimit_as=8 << 30)
+        if rc != 0:
+            # the harness process died: if it died inside Load of the index's own output, that is the finding
+            last = None
+            try:
+                lines = open(trace).read().splitlines()
+                last = json.loads(lines[-1]) if lines else None
+            except Exception:
+                pass
+            if last is not None and last.get("ev") == "loading" and ctx.pid == "C08":
+                why = "out of memory" if "out of memory" in err else ("panic" if "panic" in err else "exit %d" % rc)
+                ctx.finding("RtCrash@stream:shape=%s" % last["shape"],
+                            "loading the index's own snapshot (%d bytes, %d items, metadata shape %s, header=%d, reader=%s, target=%s) killed the process: %s"
+                            % (last["nbytes"], last["nitems"], last["shape"], last["hdr"], last["reader"], last["tgt"], why),
+                            {"event": last, "stderr_tail": err[-600:]})
+                continue
+            raise vlib.NoVerdict("stream harness died (exit %d): %s" % (rc, err[-400:]))
         import shutil
         shutil.copy(rank, os.path.join(d, "HnswRankDef.tla"))
         viols, nev = vlib.validate_trace(ctx, "HnswTrace", "HnswTrace.cfg", trace, lambda line: True, chunk_events=800)
